@@ -30,10 +30,21 @@ func runC09(h *H) {
 			alias := g.pick("fresh", "recv=v1", "recv=v2", "v1=v2", "recv=v1=v2")
 			g.count("alias:" + alias)
 			a, b := cloneVec(v1), cloneVec(v2)
+			if g.intn(3) == 0 {
+				// operands whose backing arrays have room to spare (as after SetDim shrinks, dropped underflows,
+				// earlier sums): an in-place strategy would find the room it needs only then
+				for _, x := range []*sparse.Vector{a, b} {
+					x.Entries = append(make([]sparse.Entry, 0, len(x.Entries)+1+g.intn(24)), x.Entries...)
+				}
+				g.count("alias:spare-capacity")
+			}
 			var recv *sparse.Vector
 			switch alias {
 			case "fresh":
 				recv = &sparse.Vector{Dim: 99, Entries: []sparse.Entry{{Index: 0, Value: 7}}}
+				if g.intn(2) == 0 {
+					recv.Entries = append(make([]sparse.Entry, 0, 40), recv.Entries...)
+				}
 			case "recv=v1":
 				recv = a
 			case "recv=v2":
@@ -93,6 +104,9 @@ func runC09(h *H) {
 				g.count("alias:scale-recv=v")
 			} else {
 				recv = &sparse.Vector{Dim: 5, Entries: []sparse.Entry{{Index: 1, Value: 3}}}
+				if g.intn(2) == 0 { // a receiver with room to spare
+					recv.Entries = append(make([]sparse.Entry, 0, 40), recv.Entries...)
+				}
 			}
 			recv.ScaleVec(a, in)
 			h.emit(h.line("C09", "scale").F(a).Vec(v).Bar().Vec(recv))
